@@ -164,6 +164,23 @@ class Normalizer:
         if k == "call" and isinstance(t[1], str):
             path, args = t[1], t[2]
             l = last(path)
+            if l in ("as_const", "as_var", "as_not", "as_binary", "as_param") and "FnUpdate" in path and len(args) == 1:
+                # library accessors of biodivine_lib_param_bn::FnUpdate on a known variant (assumption L9): the fields of the matching
+                # variant, None for every other variant
+                x = args[0]
+                while x[0] == "call" and isinstance(x[1], str) and last(x[1]) in CLONES and len(x[2]) == 1:
+                    x = x[2][0]
+                if x[0] == "ctor" and "FnUpdate::" in str(x[1]):
+                    want = {"as_const": "Const", "as_var": "Var", "as_not": "Not", "as_binary": "Binary", "as_param": "Param"}[l]
+                    if last(x[1]) != want:
+                        return ("ctor", "std::prelude::v1::None", ())
+                    f_ = x[2]
+                    if want == "Binary" and len(f_) == 3:
+                        return ("ctor", SOME, (("tuple", (f_[1], f_[0], f_[2])),))          # (left, op, right)
+                    if want == "Param" and len(f_) == 2:
+                        return ("ctor", SOME, (("tuple", (f_[0], f_[1])),))
+                    if len(f_) == 1:
+                        return ("ctor", SOME, (f_[0],))
             if l == "next" and len(args) == 1:
                 # the two pieces of `x.splitn(2, P)`: x[..i] and x[i+1..] with i the first position of P (the whole of x when there is none)
                 a0 = args[0]
@@ -230,6 +247,9 @@ class Normalizer:
                 a = args[0]
                 if a[0] == "hof" and a[1] == "map":
                     return self.rewrite(("collect", strip_adapters(a[2]), a[3]))
+                if a[0] == "call" and last(a[1]) == "zip" and len(a[2]) == 2:
+                    # collecting a zip collects the pairs of its elements
+                    return self.rewrite(("collect", a, self.rewrite(("elem", a))))
                 if a[0] == "hof" and a[1] == "filter_map":
                     body = a[3]
                     # filter_map(|x| O.map(|p| (K, V))) collected into a map  ==  { K -> V | x, O is Some }
@@ -281,6 +301,14 @@ class Normalizer:
                     return self.rewrite(("bin", "&&", x[1], a))
                 if a == F_:
                     return self.rewrite(("bin", "&&", neg(x[1]), b))
+            return t
+        if k == "matches" and t[2][0] == "or" and t[1][0] == "ctor":
+            # a known variant against an or-pattern: one of the alternatives matches
+            alts = [self.rewrite(("matches", t[1], d_)) for d_ in t[2][1]]
+            if any(a == ("lit", True) for a in alts):
+                return ("lit", True)
+            if all(a == ("lit", False) for a in alts):
+                return ("lit", False)
             return t
         if k == "matches" and t[2][0] == "lit" and isinstance(t[2][1], bool):
             return t[1] if t[2][1] else neg(t[1])           # `match b { true => .., false => .. }`
@@ -397,6 +425,17 @@ class Normalizer:
             c = self.rewrite(("matches", t[1], t[2][0][0][0]))
             if not (c[0] == "matches" and c[1] == t[1]):
                 return self.rewrite(("ite", c, t[2][0][1], t[2][1][1]))
+        if k == "switch" and len(t[2]) >= 2 and all(g is None and d[0] in ("slice", "wild") for (d, g), v in t[2]) and any(d[0] == "slice" for (d, g), v in t[2]):
+            # a `match` on the shape of a slice (`[] => .., [first, rest @ ..] => ..`) is a case split on its length; the last arm of an
+            # exhaustive match is taken when no earlier one is
+            scrut, arms = t[1], t[2]
+            acc = arms[-1][1]
+            for (d, g), v in reversed(arms[:-1]):
+                c = ("lit", True) if d[0] == "wild" else self.rewrite(("matches", scrut, d))
+                if c[0] == "matches":
+                    return t
+                acc = self.rewrite(("ite", c, v, acc))
+            return acc
         if k == "switch":
             scrut, arms = t[1], t[2]
             # two-armed Option / Result match with variant-only patterns
@@ -437,15 +476,29 @@ class Normalizer:
                 # `for i in 0..x.len()`: i is the counter of an enumeration of x
                 return ("tproj", ("elem", ("call", "std::iter::Iterator::enumerate", (x,))), 0)
             c2 = strip_adapters(c)
+            if c2[0] == "call" and isinstance(c2[1], str) and last(c2[1]) in ("repeat", "repeat_n") and c2[2]:
+                return c2[2][0]             # every element of repeat(x) is x
+            if c2[0] == "call" and isinstance(c2[1], str) and last(c2[1]) == "zip" and len(c2[2]) == 2:
+                # the element of a.zip(b) is the pair of the elements
+                return ("tuple", (self.rewrite(("elem", c2[2][0])), self.rewrite(("elem", c2[2][1]))))
             if c2[0] == "hof" and c2[1] == "map":
                 return c2[3]
             if c2[0] == "hof" and c2[1] in ("filter", "take_while", "skip_while", "inspect"):
                 return self.rewrite(("elem", c2[2]))
             if c2[0] == "collect":
                 return c2[2]
+            if c2[0] == "call" and isinstance(c2[1], str) and last(c2[1]) in ("collect", "to_vec", "into_vec") and len(c2[2]) == 1:
+                return self.rewrite(("elem", c2[2][0]))        # an iterator collected as it is: the same elements
             if c2 is not c:
                 return ("elem", c2)
             return t
+        if k == "collect" and len(t) == 3 and strip_adapters(t[1])[0] == "call" and last(strip_adapters(t[1])[1]) == "zip" and len(strip_adapters(t[1])[2]) == 2:
+            # one item per element of the finite side of a zip with an endless repeat(..)
+            za, zb = (strip_adapters(x) for x in strip_adapters(t[1])[2])
+            if zb[0] == "call" and isinstance(zb[1], str) and last(zb[1]) in ("repeat",):
+                return self.rewrite(("collect", za, t[2]))
+            if za[0] == "call" and isinstance(za[1], str) and last(za[1]) in ("repeat",):
+                return self.rewrite(("collect", zb, t[2]))
         if k == "collect" and len(t) == 3:
             src, body = t[1], t[2]
             x = index_range_of(strip_adapters(src))
@@ -499,6 +552,13 @@ class Normalizer:
             return t
         if k == "index":
             base, idx = t[1], t[2]
+            import terms as _terms
+            li = int(idx[1]) if idx[0] == "lit" and (isinstance(idx[1], _terms.Int) or type(idx[1]) is int) else None
+            if base[0] == "hof" and base[1] == "map" and base[2][0] == "array" and li is not None and 0 <= li < len(base[2][1]):
+                # [a, b].map(f)[i] == f([a, b][i])   (arrays are mapped element by element, in order)
+                return self.norm(_terms.replace(base[3], ("elem", base[2]), base[2][1][li]))
+            if base[0] == "array" and li is not None and 0 <= li < len(base[1]):
+                return base[1][li]
             if idx[0] == "tproj" and str(idx[2]) == "0" and idx[1][0] == "elem":
                 # x[i] with i the counter of an enumeration of x (`for i in 0..x.len()`, or enumerate()) is the enumerated element
                 src = strip_adapters(idx[1][1])
@@ -651,8 +711,9 @@ class Normalizer:
             return self.proj(base[2], variant, idx)
         if base[0] == "hof" and base[1] == "map" and last(variant) in ("Some", "Ok") and idx == 0 and self.is_option_hof(base):
             return base[3]                 # the payload of opt.map(f) is f(payload of opt) - the body is already written over it
-        if base[0] == "ite" and last(variant) in ("Some", "Ok", "Err", "None") and False:
-            pass
+        if base[0] == "ite" and isinstance(idx, int) and all(y[0] == "ctor" and last(y[1]) == last(variant) and idx < len(y[2]) for y in (base[2], base[3])):
+            # the same variant either way: the payload is chosen by the same condition
+            return self.rewrite(("ite", base[1], base[2][2][idx], base[3][2][idx]))
         if base[0] == "ite" and last(variant) not in ("Some", "Ok", "Err", "None") and isinstance(variant, str) and "::" in variant:
             a, b = base[2], base[3]
             other = lambda y: y[0] == "ctor" and isinstance(y[1], str) and y[1].split("::")[-2:-1] == variant.split("::")[-2:-1] and last(y[1]) != last(variant)      # noqa: E731
